@@ -139,7 +139,8 @@ func (ni *namespaceInformer) start() {
 	if err := wait.PollUntilContextCancel(cctx, DefaultSyncTime, true, func(_ context.Context) (bool, error) {
 		return ni.SharedInformer.HasSynced(), nil
 	}); err != nil {
-		ni.Monitor.Logger.Error("Cache is not synced for informer",
+		// MonitorConfig.Logger is optional and is not set by the hook config loader.
+		log.Error("Cache is not synced for informer",
 			slog.String("debugName", ni.Monitor.Metadata.DebugName))
 	}
 
